@@ -46,6 +46,7 @@ class FakeSock:
         self.clock = None           # FakeClock of a clk=1 case: told about every socket event
         self.w_how = []             # send script: how each 'W' was used up, in order: 'S' the socket raised
                                     # socket.timeout for it, 'C' a deadline check of the code fired
+        self.sends = []             # every sock.send call: (bytes offered, bytes on the wire before it)
 
     def _io_done(self, script):
         if self.clock is not None:
@@ -92,6 +93,7 @@ class FakeSock:
 
     def send(self, data, flags=0):
         data = bytes(data)
+        self.sends.append((len(data), len(self.wire)))
         s = self.sscript
         if not s:
             self.wire += data
@@ -119,6 +121,9 @@ class FakeSock:
 
     def undelivered(self):
         return b''.join(e for e in self.rscript if not is_to(e))
+
+    def faults_left(self):
+        return sum(1 for e in self.rscript if is_to(e))
 
 
 class FakeClock:
@@ -1048,8 +1053,10 @@ class C12(Property):
         return cls._rcfg(case)[-1][1]
 
     @staticmethod
-    def _rx_tok(op):
-        if op[0] in ('r', 'p', 's'):
+    def _rx_tok(op, obs=()):
+        if op[0] == 'r':
+            return '@'.join(['r%d' % op[1]] + list(obs))
+        if op[0] in ('p', 's'):
             return '%s%d' % (op[0], op[1])
         if op[0] == 'u':
             return 'u%d:%s:%s' % (op[1], op[2], op[3])
@@ -1058,18 +1065,19 @@ class C12(Property):
         if op[0] == 'm':
             return 'm%d' % op[1]
         if op[0] == 'rf':
-            return 'F%d:%d' % (op[1], op[2])        # dx only
+            return '@'.join(['F%d:%d' % (op[1], op[2])] + list(obs)[:1])        # dx only
         raise InfraError('bad rx op %r' % (op,))
 
     @staticmethod
-    def _tx_tok(op):
+    def _tx_tok(op, offers=None):
+        tail = '@' + '.'.join(map(str, offers)) if offers else ''
         if op[0] in ('s', 'sa'):
-            return 's' + op[1]
+            return 's' + op[1] + tail
         if op[0] == 'b':
             return 'b' + op[1]
         if op[0] in ('sf', 'saf'):
-            return 'F%s:%d' % (op[1], op[2])        # dx only
-        return 'f'
+            return 'F%s:%d' % (op[1], op[2]) + (tail if op[2] == 0 else '')       # dx only
+        return 'f' + tail
 
     # ---- what the statement leaves free, resolved by observation before the model is asked
     # (1) WHERE on the send side the code compares the clock with its deadline (after every sock.send? also after
@@ -1082,8 +1090,9 @@ class C12(Property):
     #     reaches the model as the plain call.
     def _hint(self, case):
         cache = self.__dict__.setdefault('_hints', {})
-        if len(cache) > 4000:
-            cache.clear()
+        if len(cache) > 8000:
+            for k in list(cache)[:4000]:
+                del cache[k]
         ent = cache.get(id(case))
         if ent is None or ent[0] is not case:
             ent = (case, {})
@@ -1092,10 +1101,45 @@ class C12(Property):
 
     def _hints_for(self, case):
         h = self._hint(case)
-        if 'w_how' not in h:
+        if 'ran' not in h:
             self.impl(case)         # line() asked before impl() ran on this object (replay, shrinking)
             h = self._hint(case)
         return h
+
+    # (3) round 3c - WHICH prefix recv() returns and how the rest is split between rbuf and the socket: every recv
+    #     attempt reaches the model as an observation (result, getrecvbuffer(), bytes and faults the network still
+    #     holds) which the model accepts or rejects against the statement's recv clause, continuing from the
+    #     observed state.
+    # (4) how many bytes each sock.send of a send()/flush() call is given: reaches the model as `offers` when some
+    #     sock.send was given less than everything not yet on the wire.
+    @staticmethod
+    def _obs_tok(rec):
+        r = rec['r']
+        if rec.get('rbuf') == 'nonbytes':
+            return 'X~-~0~0'
+        if r == 'ok':
+            if rec['v'].startswith('nonbytes'):
+                return 'X~-~0~0'
+            res = 'v' + rec['v']
+        elif r == 'timeout':
+            res = 'T'
+        elif r == 'oserror':
+            res = 'E'
+        else:
+            return 'X~-~0~0'
+        return '%s~%s~%d~%d' % (res, rec['rbuf'], len(unhx(rec['und'])), rec['fl'])
+
+    @staticmethod
+    def _offers(fs, n0, pend0):
+        """the offers of the sock.send calls made since index n0, or None when every one of them was given
+        everything that was not yet on the wire (pend0 = buffered + new data when the public call began)"""
+        calls = fs.sends[n0:]
+        if not calls:
+            return None
+        w0 = calls[0][1]
+        if all(o == pend0 - (w - w0) for o, w in calls):
+            return None
+        return [o for o, _ in calls]
 
     def _sscript_tok_observed(self, case, key):
         script = case[key]
@@ -1118,21 +1162,27 @@ class C12(Property):
         if k == 'rx':
             if case['rs'] < 1:
                 return None
+            robs = (self._hints_for(case).get('robs', {}) if any(op[0] == 'r' for op in case['ops']) else {})
             return ' '.join(['rx', str(case['rs']), str(case['ms']), str(case['retry']),
-                             self._script_tok(case['script'])] + [self._rx_tok(op) for op in case['ops']])
+                             self._script_tok(case['script'])] +
+                            [self._rx_tok(op, robs.get(i, ())) for i, op in enumerate(case['ops'])])
         if k == 'tx':
+            offs = self._hints_for(case).get('offers', {})
             return ' '.join(['tx', self._sscript_tok_observed(case, 'script')] +
-                            [self._tx_tok(op) for op in case['ops']])
+                            [self._tx_tok(op, offs.get(i)) for i, op in enumerate(case['ops'])])
         if k == 'dx':
             if case['rs'] < 1:
                 return None
-            flagged = any(op[0] in ('rf', 'sf', 'saf') and op[2] != 0 for _, op in case['ops'])
-            refused = set(self._hints_for(case).get('refused', [])) if flagged else set()
+            hints = self._hints_for(case)
+            refused = set(hints.get('refused', []))
+            robs, offs = hints.get('robs', {}), hints.get('offers', {})
 
             def tok(i, side, op):
                 if op[0] in ('rf', 'sf', 'saf') and op[2] != 0 and i not in refused:
                     op = ['r', op[1]] if op[0] == 'rf' else ['s', op[1]]       # flags taken: the plain call
-                return side + (self._rx_tok(op) if side == 'R' else self._tx_tok(op))
+                if op[0] == 'rf' and op[2] != 0:
+                    return side + self._rx_tok(op)                              # refused: no observation needed
+                return side + (self._rx_tok(op, robs.get(i, ())) if side == 'R' else self._tx_tok(op, offs.get(i)))
             return ' '.join(['dx', str(case['rs']), str(case['ms']), self._script_tok(case['rscript']),
                              self._sscript_tok_observed(case, 'sscript')] +
                             [tok(i, side, op) for i, (side, op) in enumerate(case['ops'])])
@@ -1141,7 +1191,8 @@ class C12(Property):
                              ','.join(map(str, case['cuts'])) or '-', str(case['nreads']), self._rcfg_tok(case)]
                             + case['payloads'])
         if k == 'nsr':
-            return ' '.join(['nsr', self._rcfg_tok(case), self._script_tok(case['script']), str(case['nreads'])])
+            return ' '.join(['nsr', self._rcfg_tok(case), self._script_tok(case['script']), str(case['nreads'])] +
+                            list(self._hints_for(case).get('splits', ())))
         if k == 'duo':
             la, lb = self.line(case['a']), self.line(case['b'])
             if la is None or lb is None:
@@ -1263,6 +1314,9 @@ class C12(Property):
             fs.clock = clock
         bs = BufferedSocket(fs, timeout=self._tmo(case), maxsize=case['ms'], recvsize=case['rs'])
         tries = 1 + (sum(1 for e in case['script'] if is_to(e)) if case['retry'] else 0)
+        h = self._hint(case)
+        h['ran'] = True
+        robs = h['robs'] = {}
         for i, op in enumerate(case['ops']):
             yield
             for _ in range(tries):
@@ -1271,6 +1325,9 @@ class C12(Property):
                 rb = bs.getrecvbuffer()
                 rec['rbuf'] = hx(bytes(rb)) if isinstance(rb, (bytes, bytearray)) else 'nonbytes'
                 rec['und'] = hx(fs.undelivered())
+                rec['fl'] = fs.faults_left()
+                if op[0] == 'r':
+                    robs.setdefault(i, []).append(self._obs_tok(rec))
                 out.append(rec)
                 if rec['r'] != 'timeout' and rec['r'] != 'oserror':
                     break
@@ -1283,15 +1340,32 @@ class C12(Property):
         if clk:
             fs.clock = clock
         bs = BufferedSocket(fs, timeout=self._tmo(case))
+        h = self._hint(case)
+        h['ran'] = True
+        h['w_how'] = []
+        offs = h['offers'] = {}
         for i, op in enumerate(case['ops']):
             yield
             rec = {'op': i}
+            n0, pend0 = len(fs.sends), self._pend0(bs, op)
             self._do_tx(bs, op, rec, clock, clk, fs)
             rec['sbuf'] = hx(bytes(bs.getsendbuffer()))
             rec['wire'] = hx(fs.wire)
             rec['left'] = sum(1 for e in fs.sscript if is_to(e))
             out.append(rec)
-            self._hint(case)['w_how'] = list(fs.w_how)
+            h['w_how'] = list(fs.w_how)
+            o = self._offers(fs, n0, pend0)
+            if o:
+                offs[i] = o
+
+    @staticmethod
+    def _pend0(bs, op):
+        """bytes that are not on the wire when a send-side call begins: the send buffer plus the new data"""
+        try:
+            n = len(bytes(bs.getsendbuffer()))
+        except Exception:
+            n = 0
+        return n + (len(unhx(op[1])) if op[0] in ('s', 'sa', 'sf', 'saf') else 0)
 
     def run_duo(self, case):
         """two sockets, calls interleaved as `order` says (then whatever is left of each)"""
@@ -1330,8 +1404,10 @@ class C12(Property):
             fs.clock = clock
         bs = BufferedSocket(fs, timeout=self._tmo(case), maxsize=case['ms'], recvsize=case['rs'])
         out = []
+        robs, offs = {}, {}
         for i, (side, op) in enumerate(case['ops']):
             rec = {'op': i}
+            n0, pend0 = len(fs.sends), (self._pend0(bs, op) if side == 'S' else 0)
             if side == 'R':
                 self._do_rx(bs, op, rec, clock, clk, case['ms'])
             else:
@@ -1339,13 +1415,22 @@ class C12(Property):
             rb = bs.getrecvbuffer()
             rec['rbuf'] = hx(bytes(rb)) if isinstance(rb, (bytes, bytearray)) else 'nonbytes'
             rec['und'] = hx(fs.undelivered())
+            rec['fl'] = fs.faults_left()
             rec['sbuf'] = hx(bytes(bs.getsendbuffer()))
             rec['wire'] = hx(fs.wire)
             rec['left'] = sum(1 for e in fs.sscript if is_to(e))
             out.append(rec)
+            if side == 'R' and op[0] in ('r', 'rf'):
+                robs[i] = [self._obs_tok(rec)]
+            if side == 'S':
+                o = self._offers(fs, n0, pend0)
+                if o:
+                    offs[i] = o
         h = self._hint(case)
+        h['ran'] = True
         h['w_how'] = list(fs.w_how)
         h['refused'] = [r['op'] for r in out if r['r'] == 'valueerror']
+        h['robs'], h['offers'] = robs, offs
         return out
 
     @classmethod
@@ -1420,7 +1505,13 @@ class C12(Property):
                 rec['r'] = EXC.get(exc_name(e), 'exc:' + exc_name(e))
             rec['rbuf'] = hx(bytes(rd.bsock.getrecvbuffer()))
             rec['und'] = hx(fr.undelivered())
+            rec['fl'] = fr.faults_left()
             out.append(rec)
+        h = self._hint(case)
+        h['ran'] = True
+        # the split left behind by read_ns (its final recv(1) may or may not over-read) is free: the model is
+        # re-seated on it after every read, and what is compared is rbuf ++ undelivered
+        h['splits'] = ['%s~%d~%d' % (r['rbuf'], len(unhx(r['und'])), r['fl']) for r in out]
         return out
 
     def impl(self, case):
@@ -1491,7 +1582,7 @@ class C12(Property):
         if k == 'ns':
             return 'W:%s;%s;%s' % (','.join(obs['w']), obs['wire'], ','.join(obs['r']))
         if k == 'nsr':
-            return ','.join('%s/%s' % (r['r'], r['rbuf']) for r in obs['recs']) or '-'
+            return ','.join('%s/%s' % (r['r'], hx(unhx(r['rbuf']) + unhx(r['und']))) for r in obs['recs']) or '-'
         if k == 'duo':
             return '%s | %s' % (self.render(case['a'], obs['a']), self.render(case['b'], obs['b']))
         return '?'
